@@ -381,6 +381,30 @@ def long_texts(ctx):
                                          '%d-line text, %s at line %d, context %d: %s of make_patch(a, b) %s' % (length, kind, pos, n, 'revert' if rev else 'apply',
                                                                                                               'raised %s' % got if st2 == 'raised' else 'does not give the other text'), case)
                             break
+    # very long texts with runs of identical lines (licence headers, tables, blank lines): an edit inside such a run
+    for total, n in ((1000, 0), (1000, 3), (1300, 1), (2100, 3)):
+        run_a = total // 2
+        base = ['same'] * run_a + ['unique %d' % k for k in range(20)] + [''] * (total - run_a - 20)
+        for kind, pos in (('ins', run_a // 2), ('del', run_a // 2), ('ins', total - 50), ('del', total - 50), ('rep', run_a + 10)):
+            b = list(base)
+            if kind == 'ins':
+                b.insert(pos, base[pos])
+            elif kind == 'del':
+                del b[pos]
+            else:
+                b[pos] = 'replaced'
+            ta, tb = '\n'.join(base) + '\n', '\n'.join(b) + '\n'
+            n_cases += 1
+            ctx.count(('very-long', total, kind, pos, n), nontrivial=True)
+            case = {'check': 'long', 'a': '<%d lines>' % total, 'b': '<%s at line %d>' % (kind, pos), 'n': n}
+            st, pt = call(make_patch, ta, tb, 'f.ml', context_size=n)
+            ok_ = st != 'raised'
+            if ok_:
+                for rev, src, want in ((False, ta, tb), (True, tb, ta)):
+                    st2, got = call(apply_patch, src, pt, rev)
+                    ok_ = ok_ and st2 != 'raised' and got == want
+            if not ok_:
+                ctx.mismatch('C30:long:identical-run:%s' % kind, 'text of %d lines with a run of %d identical lines, %s at line %d, context %d: make_patch / apply / revert do not reproduce the texts' % (total, run_a, kind, pos, n), case)
     ctx.replayed += n_cases
     ctx.extra['long_text_round_trips'] = n_cases
 
